@@ -102,3 +102,7 @@ func init() {
 		},
 	})
 }
+
+func (o *c07Oracle) OnDeath(e *core.Engine, idx int, st *core.Step, deaths []string) []core.Violation {
+	return ReplicaDeath("C07", "quiet-vs-noisy", e, st, deaths)
+}
